@@ -49,6 +49,7 @@ type Options struct {
 	Overflow   bool            // math-int mode: obligations that int arithmetic stays within 64 bits
 	Bounded    string
 	Reveal     bool // opaque spec functions are expanded (used when proving the contracts that define them)
+	AssumeNoop map[string]bool // callees treated, in this unit only, as having no effect on the modelled heap (result arbitrary); a stated assumption
 	Prune      bool // path mode: ask the solver at each fork and drop sides it refutes
 	RevealOnly map[string]bool // if non-nil: only these opaque spec functions (by short name) are expanded
 	AppendDouble bool // bounded lemmas: deterministic capacity growth on reallocating appends
